@@ -21,6 +21,9 @@ def run(prop, tier, seed):
     if prop == 'C16':
         from . import engine_locks
         return engine_locks.run(prop, tier, seed)
+    if prop == 'C19':
+        from . import engine_threads
+        return engine_threads.run(prop, tier, seed)
     if prop == 'C15':
         from . import engine_batteries
         return engine_batteries.run(prop, tier, seed)
@@ -48,6 +51,9 @@ def replay(path):
     if eng == 'locks':
         from . import engine_locks
         return engine_locks.replay(path)
+    if eng == 'threads':
+        from . import engine_threads
+        return engine_threads.replay(path)
     if eng == 'batteries':
         from . import engine_batteries
         return engine_batteries.replay(path)
